@@ -133,6 +133,10 @@ def check(ctx, replay=None):
         viol("compiled programs / text forms / lookups differ between process runs (%d distinct digests)" % len(digs),
              {d: [json.dumps(e, sort_keys=True) for e in envs][:6] for d, envs in by_env.items()})
     ctx.sample({"histories": hists[:3], "digest": sorted(digs)[0]})
+    # 5. the library has no memory (Hist.tla): histories of compilations, loads, lookups and text conversions over sibling policy values,
+    #    every call compared with the same call made alone in a fresh process
+    import histfam
+    histfam.run(ctx)
     ctx.cov["rule"] = ("sequential: every call history of at most %d calls over two policy values (Assemble, Dump, GetInfo, text forms) generated by Conc.tla; concurrent: 16 ungated "
                        "goroutines x 4 sharing configurations (distinct values, copies sharing Syscalls, shared Names, shared Conditions) in a -race binary; "
                        "digests of compilations for 4 architectures, text forms and lookups across %d fresh processes under 12 different environments (GOARCH/GOOS of a cross-compiling shell, locale, GOMAXPROCS, ...) and two working directories; non-trivial = history compiles at least twice" % (4 if th else 3, nproc))
